@@ -65,8 +65,9 @@ def parse_stream(data, compressed=False, threshold=None, strict_threshold=True):
                 if len(payload) != dlen:
                     raise FrameError('data length %d != inflated %d'
                                      % (dlen, len(payload)))
+                # vanilla rejects only "compressed although below threshold"
                 if strict_threshold and threshold is not None and \
-                        (threshold < 0 or dlen < threshold):
+                        dlen < threshold:
                     raise FrameError('compressed a payload of %d bytes below '
                                      'threshold %d' % (dlen, threshold))
                 info['compressed'] = True
